@@ -792,6 +792,15 @@ func (w *poolWorld) doState(id int, st connectivity.State, pubsBefore int) {
 		pend.deCnt = 0
 		pend.state = connectivity.Ready
 		pend.gone = false
+		if !wasReady {
+			// the home of every key bound to this channel is READY again: their fallback episodes end
+			// here (a later episode may choose another stand-in)
+			for k, s := range w.bind {
+				if s == pend {
+					delete(w.standin, k)
+				}
+			}
+		}
 		w.nontriv["C07"] = true
 		w.nontriv["C20swap"] = true
 		if wasReady && len(w.cc.pubs) != pubsBefore {
